@@ -236,13 +236,19 @@ Proof.
     rewrite tget_tdel_other by exact Hk1. rewrite tget_tdel_other by exact Hk2. exact Hh.
 Qed.
 
-Lemma P_register w sid s :
-  WInv w -> sget (sessions w) sid = Some s -> live s -> WInv (register w sid (s_plan s)).
+Lemma P_reg_instance w sid s :
+  WInv w -> sget (sessions w) sid = Some s -> live s -> WInv (reg_instance w sid (s_plan s)).
 Proof.
-  intros [I1 I2 I3 I4 I5 I6 I7] Hs L. constructor; unfold register; cbn [syncs rbcs cls dkg sessions]; auto.
-  - eapply own2_set; eauto.
+  intros [I1 I2 I3 I4 I5 I6 I7] Hs L. constructor; unfold reg_instance; cbn [syncs rbcs cls dkg sessions]; auto.
   - eapply own1_set; eauto.
   - destruct (p_sign (s_plan s)); [eapply own1_set; eauto|exact I3].
+Qed.
+
+Lemma P_reg_sync2 w sid s :
+  WInv w -> sget (sessions w) sid = Some s -> live s -> WInv (reg_sync2 w sid (s_plan s)).
+Proof.
+  intros [I1 I2 I3 I4 I5 I6 I7] Hs L. constructor; unfold reg_sync2; cbn [syncs rbcs cls dkg sessions]; auto.
+  - eapply own2_set; eauto.
   - intros j x Hx Lx Px. rewrite tget_tset.
     replace (key_eqb (k2 (s_plan s) sid) (KT (p_topic (s_plan x)))) with false; [eapply I7; eauto|].
     symmetry. apply key_eqb_neq. unfold k2. destruct (p_sign (s_plan s)); discriminate.
@@ -332,19 +338,30 @@ End Preservation.
 Section Steps.
 Variable mm : mmap.
 
+Lemma run_protocol_inv w sid p : WInv w -> WInv (run_protocol w sid p).
+Proof.
+  intros HI. unfold run_protocol. destruct (p_s2ok p).
+  - destruct (p_be p); try (apply P_set_at, P_finish; exact HI). apply P_set_at; exact HI.
+  - destruct (p_sign p); [apply P_set_at, P_finish; exact HI|apply P_set_at; exact HI].
+Qed.
+
+Lemma over_false_live s : over s = false -> live s.
+Proof. unfold over, live. intros H. apply orb_false_iff in H. destruct H as [_ H]. destruct (s_api s); [discriminate|reflexivity]. Qed.
+
+Lemma after_init_inv w sid s : WInv w -> sget (sessions w) sid = Some s -> WInv (after_init w sid s).
+Proof.
+  intros HI Hs. unfold after_init. destruct (over s) eqn:Eo; [apply P_set_at; exact HI|].
+  pose proof (over_false_live s Eo) as L.
+  apply run_protocol_inv. apply P_reg_sync2; [apply P_reg_instance; assumption| |exact L].
+  unfold reg_instance. cbn [sessions]. exact Hs.
+Qed.
+
 Lemma callback_inv w sid s : WInv w -> sget (sessions w) sid = Some s -> WInv (fst (callback mm w sid s)).
 Proof.
   intros HI Hs. unfold callback. destruct (parties_of mm (s_plan s)) as [parties| |]; cbn [fst];
     try (apply P_set_at, P_finish; exact HI).
   destruct (p_sign (s_plan s) && negb (p_share (s_plan s))); cbn [fst]; [apply P_set_at, P_finish; exact HI|].
-  destruct (s_cancelled s || match s_api s with Some _ => true | None => false end) eqn:Eover; cbn [fst];
-    [apply P_set_at; exact HI|].
-  assert (L : live s).
-  { unfold live. apply orb_false_iff in Eover. destruct Eover as [_ E]. destruct (s_api s); [discriminate|reflexivity]. }
-  pose proof (P_register w sid s HI Hs L) as HR.
-  destruct (p_s2ok (s_plan s)).
-  - destruct (p_be (s_plan s)); cbn [fst]; try (apply P_set_at, P_finish; exact HR). apply P_set_at; exact HR.
-  - destruct (p_sign (s_plan s)); cbn [fst]; [apply P_set_at, P_finish; exact HR|apply P_set_at; exact HR].
+  destruct (p_initgate (s_plan s)); cbn [fst]; [apply P_set_at; exact HI|apply after_init_inv; assumption].
 Qed.
 
 Lemma run_s1_inv w sid s : WInv w -> sget (sessions w) sid = Some s -> WInv (fst (run_s1 mm w sid s)).
@@ -367,9 +384,11 @@ Qed.
 Lemma release_inv w sid : WInv w -> WInv (fst (release mm w sid)).
 Proof.
   intros HI. unfold release. destruct (sget (sessions w) sid) as [s|] eqn:Hs; [|exact HI].
-  destruct (s_at s); try exact HI. destruct (p_s1then (s_plan s)); cbn [fst].
-  - apply callback_inv; assumption.
-  - unfold s1_failed. apply P_set_at, P_finish; exact HI.
+  destruct (s_at s); try exact HI.
+  - destruct (p_s1then (s_plan s)); cbn [fst].
+    + apply callback_inv; assumption.
+    + unfold s1_failed. apply P_set_at, P_finish; exact HI.
+  - cbn [fst]. apply after_init_inv; assumption.
 Qed.
 
 Lemma cancel_inv w sid : WInv w -> WInv (fst (cancel w sid)).
@@ -542,10 +561,7 @@ Qed.
 Lemma callback_no_panic w sid s : o_panic (snd (callback mm w sid s)) = false.
 Proof.
   unfold callback. destruct (parties_of mm (s_plan s)); [|reflexivity|reflexivity].
-  destruct (p_sign (s_plan s) && negb (p_share (s_plan s))); [reflexivity|].
-  destruct (s_cancelled s || match s_api s with Some _ => true | None => false end);
-    [destruct (p_sign (s_plan s)); reflexivity|].
-  destruct (p_s2ok (s_plan s)); [destruct (p_be (s_plan s)); reflexivity|destruct (p_sign (s_plan s)); reflexivity].
+  destruct (p_sign (s_plan s) && negb (p_share (s_plan s))); [reflexivity|]. destruct (p_initgate (s_plan s)); reflexivity.
 Qed.
 
 Lemma run_s1_no_panic w sid s : o_panic (snd (run_s1 mm w sid s)) = false.
@@ -558,7 +574,7 @@ Proof.
     + destruct (tget (syncs w) (KT (p_topic p))); [reflexivity|apply run_s1_no_panic].
     + destruct (dkg w); [reflexivity|apply run_s1_no_panic].
   - unfold release. destruct (sget (sessions w) sid) as [s|]; [|reflexivity]. destruct (s_at s); try reflexivity.
-    destruct (p_s1then (s_plan s)); [apply callback_no_panic|reflexivity].
+    + destruct (p_s1then (s_plan s)); [apply callback_no_panic|reflexivity].
   - unfold cancel. destruct (sget (sessions w) sid); reflexivity.
   - unfold inject. destruct sy.
     + destruct (tget (syncs w) k); reflexivity.
@@ -575,13 +591,9 @@ Theorem init_argument w sid s i parties :
 Proof.
   unfold callback, parties_of. destruct (party_ids mm (p_members (s_plan s))) as [ps| |] eqn:E; cbn [snd];
     try (intros []).
-  destruct (p_sign (s_plan s) && negb (p_share (s_plan s))); [intros []|].
-  assert (H : forall x, In (i, parties) (o_inits x) -> x = obs0 \/ o_inits x = [(sid, ps)] -> i = sid /\ Ok ps = Ok parties).
-  { intros x Hin [->|Hx]; [destruct Hin|]. rewrite Hx in Hin. destruct Hin as [Hin|[]]. inversion Hin; subst. auto. }
-  destruct (s_cancelled s || match s_api s with Some _ => true | None => false end).
-  - cbn [snd]. intros Hin. destruct (p_sign (s_plan s)); [|destruct Hin].
-    eapply H; [exact Hin|right; reflexivity].
-  - destruct (p_s2ok (s_plan s)); [destruct (p_be (s_plan s))|destruct (p_sign (s_plan s))]; cbn [snd]; intros Hin;
-      (eapply H; [exact Hin|right; reflexivity]).
+  assert (H : In (i, parties) [(sid, ps)] -> i = sid /\ Ok ps = Ok parties).
+  { intros [Hin|[]]. inversion Hin; subst. auto. }
+  destruct (p_sign (s_plan s) && negb (p_share (s_plan s))); cbn [snd]; [intros []|].
+  destruct (p_initgate (s_plan s)); cbn [snd o_inits]; exact H.
 Qed.
 End Steps.
